@@ -395,6 +395,8 @@ Definition switch (pos : Z) (prev : option N) (i : Z) (c : N) (tl : list N) (t :
              (set_loc i t)))))) [AReset c]
     else cont (set_unsafe true t) [ARaw c]      (* `:type` cast position *)
   else if c =? 62 then (* '>' *)
+    (* `~>` and `>>` redirect into a file, also without a space before them (fix) *)
+    let t := if negb (t_escaped t) && negb (inq t) && (prev_is prev 126 || prev_is prev 62) then set_unsafe true t else t in
     if t_escaped t then escaped_ c t
     else if inq t then cont (pop_add 32 t) [ARaw c]
     else if prev_is prev 45 || prev_is prev 61 then
